@@ -51,7 +51,7 @@ CHECKS = {
    text="Every history of <= 2 (3) operations over 16 registration operations with every placement of probe batteries (before first use, between, after), every history of 3 (4) operations with 4 placements, each in a fresh process; a battery = 32 expressions x up to 4 contexts (AST, rendering round trip, value/tag). Plus ~450 operator tables with one or two new infix operators at adjacent / extreme precedences, every `a X b Y c [Z d]` over new operators and one built-in per level.",
    note="History length <= 3 (4); two new operators per table; same-precedence/opposite-associativity pairs excluded (undefined); registered symbolic operators prefix-closed.", design="§4 C08"),
  "C14": dict(technique="exhaustive enumeration of the handler-kind x re-entrant-action product on the real engine, one fresh process per case; owner-tracking hook mutex turns a self re-lock into a deterministic verdict",
-   text="10 handler kinds x 13 re-entrant actions (130 cases): parse, execute, execute a global function, the same handler nested to depth 2 and 3, each register_* function, re-registering itself, and for context functions locking / writing / evaluating on the evaluating context. The outer evaluation must return its normal value; a re-lock by the owning thread is reported by the hook mutex, a hang by the wall cap.",
+   text="12 handler kinds x 13 re-entrant actions x 2 entry points (parse+exec, execute): 312 cases: parse, execute, execute a global function, the same handler nested to depth 2 and 3, each register_* function, re-registering itself, and for context functions locking / writing / evaluating on the evaluating context. The outer evaluation must return its normal value; a re-lock by the owning thread is reported by the hook mutex, a hang by the wall cap.",
    note="Nesting depth 3; locking the evaluating context is promised for context functions only.", design="§4 C14"),
  "C16": dict(technique="exhaustive enumeration of call histories without state merging (in-process and in fresh processes), every call compared with a stateless reference evaluator (model) and registry snapshots",
    text="All histories of <= 3 (4) operations over {parse, execute on fresh context, exec on long-lived context A / B} x 18 programs (no de-duplication: hidden state must not be merged away), every single operation and ordered pair as the first calls of a fresh process, ~4000 histories with one register_infix_op at every position (fresh process each), and 484 long histories (100 repetitions of one program, parse errors included, then every operation on another): every call's result and context equal the same call made alone, A and B never interact, the registry snapshot never changes under parse/exec.",
